@@ -7,6 +7,7 @@ import Frozen.Constants
 import Frozen.FastDivTab
 import Frozen.VersionGates
 import DracoProofs.GeneratedSeq
+import DracoProofs.GeneratedKd
 /-
   C05 — existing bitstreams keep decoding to the same geometry, in the same order.
 
@@ -283,5 +284,17 @@ theorem source_seqEncIndexWidth_is_model (numPoints : Nat) (hn : numPoints < 2^3
   EncodeConnectivity_indexWidth_eq_model numPoints hn
 example : Generated.MeshSequentialEncoder.EncodeConnectivity_indexWidth (65536 : Nat) = 2 := by
   rw [source_seqEncIndexWidth_is_model _ (by decide)]; decide
+
+open Generated in
+/-- `DynamicIntegerPointsKdTreeDecoder<6>::GetAxis`: the decision skeleton of `if (num_remaining_points < 64)` (condition
+    translated mechanically from clang's AST of /repo on every run) is the test of the model's `Kd.getAxis`, which takes the
+    minimal-level branch exactly when the skeleton says branch 0 -/
+theorem source_kdGetAxisBranch_is_model {σ} (S : Kd.Src σ) (P : Kd.Params) (s : σ) (n : Nat) (levels : List Nat)
+    (lastAxis : Nat) (hsel : P.selectAxis = true) :
+    DynamicIntegerPointsKdTreeDecoder.GetAxis_branch (n : Int) = (if n < 64 then 0 else 1) ∧
+    Kd.getAxis S P s n levels lastAxis =
+      if DynamicIntegerPointsKdTreeDecoder.GetAxis_branch (n : Int) = 0 then (Kd.minLevelAxis levels P.dim, s) else S.axis s :=
+  ⟨GetAxis_branch_eq_model n, getAxis_uses_branch S P s n levels lastAxis hsel⟩
+example : Generated.DynamicIntegerPointsKdTreeDecoder.GetAxis_branch 64 = 1 := by decide
 
 end Draco.C05
